@@ -1,5 +1,6 @@
 CONSTANTS
   Letters = {97}
+  Extra = {}
 INIT JInit
 NEXT JNext
 CHECK_DEADLOCK FALSE
